@@ -5,26 +5,26 @@
    storage, the "nothing changed" exit and the index rebuild.  Spec.spec_update_rows is the
    specification: a map over the stored list that replaces each selected point by its updated
    version and counts the points whose content changed.  `norm` is the storage round trip
-   (identity for MemoryStorage); `inplace` says storage mutates stored objects (MemoryStorage). *)
+   (identity for MemoryStorage).  When a callable fails nothing is changed (the None case). *)
 From Coq Require Import List ZArith NArith Bool.
 From TF Require Import Base Query Index DB Spec proofs.IndexDefs proofs.BaseP proofs.RepP proofs.DBReadP proofs.DBRemoveP
      proofs.DBStepP proofs.DBRunP proofs.DBSpecP.
 Import ListNotations.
 
-Theorem C03_update_exact : forall E C norm inplace, (forall p, wf_point p -> wf_point (norm p)) ->
+Theorem C03_update_exact : forall E C norm, (forall p, wf_point p -> wf_point (norm p)) ->
   forall s q u m, Inv s -> wf_query E q -> index_safe q -> upd_given u = true ->
-  let r := db_update E C norm inplace s q (Some u) m in
+  let r := db_update E C norm s q (Some u) m in
   match spec_update_rows C norm (hit E q m) u (st_rows s) with
   | Some (l, n) => snd r = ONat n /\ st_rows (fst r) = l /\ Inv (fst r)
-  | None => snd r = ORaise /\ (inplace = false -> fst r = read_prelude s)
+  | None => snd r = ORaise /\ fst r = read_prelude s
   end.
 Proof. exact db_update_spec. Qed.
-Theorem C03_update_all_exact : forall E C norm inplace, (forall p, wf_point p -> wf_point (norm p)) ->
+Theorem C03_update_all_exact : forall E C norm, (forall p, wf_point p -> wf_point (norm p)) ->
   forall s u, Inv s -> upd_given u = true ->
-  let r := db_update_all E C norm inplace s (Some u) in
+  let r := db_update_all E C norm s (Some u) in
   match spec_update_rows C norm (fun _ => true) u (st_rows s) with
   | Some (l, n) => snd r = ONat n /\ st_rows (fst r) = l /\ Inv (fst r)
-  | None => snd r = ORaise /\ (inplace = false -> fst r = read_prelude s)
+  | None => snd r = ORaise /\ fst r = read_prelude s
   end.
 Proof. exact db_update_all_spec. Qed.
 (* what that map is: same length and order; unselected rows untouched; a selected row becomes
